@@ -215,6 +215,32 @@ def check_roundtrip(rec, E, vname, desc, route, fmt, hier, full):
         rec.violation("recreate-refused", f"create(parse(E)) failed ({route},{fmt},hier={hier}): "
                       f"{common.exc_text(c.exc)}", full, observed=shown)
         return
+    # "nothing is ... reinterpreted as a different type": what the original description gave as an integrated DEPENDENCY
+    # (and is still in E as an envelope) is shown as a dependency - expanded into a description when the hierarchy is
+    # asked for - never as an opaque payload
+    try:
+        top_shown = shown.get("SUIT_Envelope_Tagged", {}) if isinstance(shown, dict) else {}
+        declared = desc["SUIT_Envelope_Tagged"].get("suit-integrated-dependencies", {})
+        present = envmodel.Env(E).str_members
+        for name in declared:
+            if name not in present:
+                continue
+            try:
+                envmodel.Env(present[name].val)
+            except (envmodel.EnvelopeError, AttributeError, TypeError):
+                continue
+            rec.count("dependencies-checked-for-their-shown-type")
+            as_dep = top_shown.get("suit-integrated-dependencies", {})
+            if name not in as_dep:
+                rec.violation("dependency-shown-as-another-type", f"integrated dependency {name!r} is not shown under "
+                              f"suit-integrated-dependencies ({vname},{route},{fmt},hier={hier})", full,
+                              observed={"E": E, "shown": shown})
+            elif hier and not isinstance(as_dep[name], dict):
+                rec.violation("dependency-not-expanded", f"hierarchy expansion was asked for but dependency {name!r} is "
+                              f"shown as {type(as_dep[name]).__name__} ({vname},{route},{fmt})", full,
+                              observed={"E": E, "shown": shown})
+    except (KeyError, AttributeError, envmodel.EnvelopeError):
+        pass
     mech = None
     diff = compare(E, c.value)
     if diff:
